@@ -578,3 +578,52 @@ Lemma example_result :
 Proof.
   do 2 eexists. split; [vm_compute; reflexivity|]. vm_compute. repeat split; discriminate.
 Qed.
+
+(* ------------------------------------------------------------------------------------------------------------ *)
+(** * The generated tables (Gen/MathGen.v, regenerated from /repo on every run) say what the box model needs: any Num *)
+
+Section Tables.
+  Context {T : Type} `{Num T}.
+
+  Lemma tables_clamp : forall (v : T) lo hi,
+    maybe_clamp_fo v lo hi = sp_clamp v lo hi /\
+    maybe_clamp_oo (Some v) lo hi = Some (sp_clamp v lo hi) /\ maybe_clamp_oo None lo hi = None.
+  Proof. intros v [l|] [h|]; repeat split; reflexivity. Qed.
+
+  Lemma tables_arith : forall (v p : T),
+    maybe_max_fo v (Some p) = fmax v p /\ maybe_max_fo v None = v /\
+    maybe_max_of (Some v) p = Some (fmax v p) /\ maybe_max_of None p = None /\
+    maybe_add_of (Some v) p = Some (add v p) /\ maybe_add_of None p = None /\
+    maybe_sub_of (Some v) p = Some (sub v p) /\ maybe_sub_of None p = None /\
+    maybe_sub_af (Definite v) p = Definite (sub v p) /\
+    maybe_sub_af MinContent p = MinContent /\ maybe_sub_af MaxContent p = MaxContent.
+  Proof. intros; repeat split; reflexivity. Qed.
+
+  (* lengths resolve to themselves, percentages against a definite basis only, auto to nothing *)
+  Lemma tables_resolve : forall (v b : T),
+    maybe_resolve_dim Auto (Some b) = None /\ maybe_resolve_dim (Length v) None = Some v /\
+    maybe_resolve_dim (Length v) (Some b) = Some v /\
+    maybe_resolve_dim (Percent v) (Some b) = Some (mul b v) /\ maybe_resolve_dim (Percent v) None = None /\
+    resolve_or_zero_lp (LpLength v) None = v /\ resolve_or_zero_lp (LpPercent v) (Some b) = mul b v /\
+    resolve_or_zero_lp (LpPercent v) None = zero /\
+    resolve_or_zero_lpa Auto (Some b) = zero /\ resolve_or_zero_lpa (Length v) None = v /\
+    resolve_or_zero_lpa (Percent v) (Some b) = mul b v /\ resolve_or_zero_lpa (Percent v) None = zero.
+  Proof. intros; repeat split; reflexivity. Qed.
+
+  Lemma tables_avail : forall (v w : T) (a : AvailableSpace T) (f : T -> T),
+    avail_into_option (Definite v) = Some v /\ avail_into_option (@MinContent T) = None /\
+    avail_into_option (@MaxContent T) = None /\
+    avail_maybe_set a (Some w) = Definite w /\ avail_maybe_set a None = a /\
+    avail_map_definite_value (Definite v) f = Definite (f v) /\
+    avail_map_definite_value MinContent f = MinContent /\ avail_map_definite_value MaxContent f = MaxContent.
+  Proof. intros; repeat split; reflexivity. Qed.
+
+  (* the aspect ratio transfers a size that is definite on exactly one axis *)
+  Lemma tables_ratio : forall (w h r : T) (s : Size (option T)),
+    maybe_apply_aspect_ratio (mkSize (Some w) None) (Some r) = mkSize (Some w) (Some (div w r)) /\
+    maybe_apply_aspect_ratio (mkSize None (Some h)) (Some r) = mkSize (Some (mul h r)) (Some h) /\
+    maybe_apply_aspect_ratio (mkSize (Some w) (Some h)) (Some r) = mkSize (Some w) (Some h) /\
+    maybe_apply_aspect_ratio (mkSize None None) (Some r) = mkSize None None /\
+    maybe_apply_aspect_ratio s None = s.
+  Proof. intros; repeat split; reflexivity. Qed.
+End Tables.
